@@ -656,7 +656,7 @@ def _corpus():
 def run(ctx):
     cases = _corpus() + attack_matrix()
     ctx.stat("matrix+corpus", len(cases))
-    nh = ctx.n(700, 12000)
+    nh = ctx.n(700, 4000)
     maxlen = ctx.n(12, 40)
     for i in range(nh):
         L = ctx.rng.randrange(4, maxlen + 1)
